@@ -27,6 +27,7 @@ from xonsh.procs.pipelines import (
     STDOUT_CAPTURE_KINDS,
     CommandPipeline,
     HiddenCommandPipeline,
+    PrevProcCloser,
     resume_process,
 )
 from xonsh.procs.pipes import PipeChannel
@@ -1428,6 +1429,12 @@ def _run_specs(specs, cmds):
     sure that the shell doesn't hang. See issue #2999 and the fix in PR #3000
     """
     resume_process(proc)
+
+    if background and len(cp.procs) > 1:
+        # Nobody iterates a background pipeline.  Without a closer the shell
+        # keeps its copies of the connecting pipes' write ends: the later
+        # stages never see EOF and the job never finishes.
+        PrevProcCloser(pipeline=cp)
 
     if captured == "object":
         return cp
